@@ -26,6 +26,30 @@ PDB_TO_CIF = {
 }
 
 
+def key_alias(repo) -> Dict[str, str]:
+    """atom_data key -> PDB field, for keys that are not themselves PDB field names: such a key is identified by the columns the
+    formatter writes it to (`record_name` at columns 1-6 is the record type).  Keys named like a field stand for that field."""
+    sp = spec("pdb_columns.json")
+    try:
+        fi = repo.func(M, "_format_pdb_atom_line")
+        wenv: Dict[str, Any] = {}
+        kenv: Dict[str, str] = {}
+        widths.scan(fi.node.body, wenv, kenv)
+        lines = [s for s in fi.node.body if isinstance(s, ast.Assign) and norm(s.targets[0]) == "line" and isinstance(s.value, ast.JoinedStr)]
+        lay, total = widths.layout(lines[0].value, wenv, kenv)
+    except Exception:
+        return {"record_name": "record_type"}
+    keys = {k for k, a, b in lay}
+    out: Dict[str, str] = {}
+    for k, a, b in lay:
+        if k in sp["atom"]:
+            continue
+        for field, (lo, hi) in sp["atom"].items():
+            if (a, b) == (lo, hi) and field not in keys:
+                out[k] = field
+    return out or {"record_name": "record_type"}
+
+
 def formatter_layout(chk) -> Dict[str, Tuple[int, int]]:
     repo = chk.repo
     sp = spec("pdb_columns.json")
@@ -41,7 +65,7 @@ def formatter_layout(chk) -> Dict[str, Tuple[int, int]]:
     if not isinstance(total, int):
         chk.error("writer-layout", fi.site(lines[0]), f"width of `{total[0]}` not determined ({total[1]})")
         return {}
-    alias = {"record_name": "record_type"}
+    alias = key_alias(repo)
     got = {alias.get(k, k): (a, b) for k, a, b in lay}
     chk.expect(total == 80, "writer-layout", fi.site(lines[0]), "the formatted fields and gaps add up to 80 columns", f"the atom line adds up to {total} columns, not 80", K(fi, "total"), expected=80, found=total)
     for field, want in sp["atom"].items():
@@ -270,10 +294,10 @@ def check_field_maps(chk) -> None:
     chk.note_function(wc)
     # write_pdb, PDB branch: identity
     pdb = extract_atom_data(wp, "PDB")
-    bad = {k: v for k, v in pdb.items() if v != [("record_type" if k == "record_name" else k)]}
+    alias = key_alias(repo)
+    bad = {k: v for k, v in pdb.items() if v != [alias.get(k, k)]}
     chk.expect(len(pdb) == 16 and not bad, "field-map-pdb", wp.where, "PDB rows: every atom_data field is read from the column of the same name", "write_pdb (PDB branch) reads a field from another column", K(wp, "pdb-branch"), found=bad or len(pdb))
     cif = extract_atom_data(wp, "mmCIF")
-    alias = {"record_name": "record_type"}
     bad = {}
     for k, srcs in cif.items():
         f = alias.get(k, k)
